@@ -724,9 +724,9 @@ class DFA:
             return True
         return False
 
-    def dfs(self):
+    def dfs(self, extra_roots=()):
         """
-        Construct a dfs-order traversal of the DFA
+        Construct a dfs-order traversal of the DFA (starting state first, then anything else reachable from extra_roots)
         """
 
         visited = set()
@@ -757,6 +757,8 @@ class DFA:
                     yield from aux(t.target)
 
         yield from aux(self.starting_state)
+        for root in extra_roots:
+            yield from aux(root)
 
     def error_handling_transitions(self, include_states=False):
         """
@@ -5046,7 +5048,9 @@ class DfaCompileCtx:
     def _optimize_remove_inaccessible(self):
         if not ProgramData.do(ProgramFlag.REMOVE_INACCESIBLE_STATES):
             return 0
-        accessible = set(self.dfa.dfs())
+        # actions run by _start can redirect too (an append that is out of space goes to its handler)
+        start_targets = [target for action in self.start_actions for sub in action.all_subactions() for target in sub.get_target_override_targets()]
+        accessible = set(self.dfa.dfs(start_targets))
         mod = 0
         for i in self.dfa.states.copy():
             if i not in accessible:
